@@ -20,7 +20,9 @@ interp   one non-lattice rotation (axis x angle x input form x target n) on
          scalar reproduced.
 seq      sequences of 2-3 non-lattice rotations / clears: the state equals a
          fresh rotator given the composed rotation (later after earlier).
-refuse   fields that must be refused; positive controls.
+refuse   fields that must be refused.
+accept   positive controls: every supported field / mapping is accepted and a new rotator shows the original.
+aborted  rotate() calls that raise (bad n, unknown method): outcome only counted in the notes, never a verdict.
 """
 import itertools
 import math
@@ -724,14 +726,14 @@ def _seq_rots(tier):
     base = [("z", "30deg"), ("x", "-60deg"), ("g122", "45deg"), ("d111", "0.3rad")]
     if tier == "quick":
         return base
-    return base + [("y", "45deg"), ("g122", "-60deg"), ("g236", "120deg"), ("z", "0.3rad")]
+    return base + [("y", "45deg"), ("g236", "120deg")]
 
 
 def unit_seq(ctx):
     quick = ctx.tier == "quick"
     rots = _seq_rots(ctx.tier)
     forms = ["quat", "euler"]
-    forms1 = forms if quick else list(FORMS)
+    forms1 = forms if quick else ["quat", "euler", "align"]
     kind, perm = ctx.choose("field", [("v-tracer", (1, 2, 0)), ("s-tracer", (0, 1, 2)), ("v-uniform", (0, 2, 1))])
     mname = ctx.choose("mesh", ["n666-c1"] if quick else ["n666-c1", "n865-c1,0.5,2"])
     r1 = ctx.choose("rot1", rots)
@@ -885,6 +887,41 @@ def unit_accept(ctx):
     ctx.observe(tuple(int(k) for k in rot.field.mesh.n))
 
 
+def unit_aborted(ctx):
+    """a rotate() call that raises (bad target n, unknown method, malformed rotation) - the statement says nothing about
+    such calls, so the outcome is only COUNTED (notes), never a verdict: does the next rotation still start from the
+    state before the aborted call?"""
+    bad = ctx.choose("bad-call", ["n-zero", "n-negative", "unknown-method", "malformed-quat"])
+    kind = ctx.choose("field", ["s-tracer", "v-tracer"])
+    mesh = make_mesh(LATTICE_MESHES["n432-c1"])
+    f, comp_axis = make_field(mesh, kind, (0, 1, 2), ctx.seed)
+    o = Orig(f, comp_axis)
+    rot = df.FieldRotator(f)
+    zq = _quarter_args("z", 1, "euler")
+    ctx.step(1)
+    if bad == "n-zero":
+        r, e = C.raises(do_rotate, rot, zq, (0, 3, 2))
+    elif bad == "n-negative":
+        r, e = C.raises(do_rotate, rot, zq, (4, -3, 2))
+    elif bad == "unknown-method":
+        r, e = C.raises(rot.rotate, "from_nothing", [0, 0, 1])
+    else:
+        r, e = C.raises(rot.rotate, "from_quat", [0.0, 0.0, 0.0, 0.0])
+    ctx.observe(bad, r, type(e).__name__)
+    if not r:
+        ctx.note("bad-call-accepted:" + bad)
+        return
+    ctx.check()
+    if C.field_snap(rot.field) != o.snap:
+        ctx.note("aborted-rotate-changed-field:" + bad)
+    ctx.step(1)
+    do_rotate(rot, _quarter_args("x", 1, "matrix"))
+    p1, p2, n, arr = lattice_expect(o, GENS[("x", 1)])
+    ctx.check()
+    same = tuple(int(k) for k in rot.field.mesh.n) == n and np.abs(np.asarray(rot.field.array, float) - arr).max() <= TOL * o.vmax
+    ctx.note(("next-rotation-unaffected:" if same else "next-rotation-composed-with-the-aborted-one:") + bad)
+
+
 def units(tier):
     return [
         {"name": "group", "fn": unit_group, "bound": None},
@@ -893,4 +930,5 @@ def units(tier):
         {"name": "seq", "fn": unit_seq, "bound": None},
         {"name": "refuse", "fn": unit_refuse, "bound": None},
         {"name": "accept", "fn": unit_accept, "bound": None},
+        {"name": "aborted", "fn": unit_aborted, "bound": None},
     ]
